@@ -140,12 +140,14 @@ op('span_to_sequence', _g_span_to_sequence, lambda pt, a: pt.span_to_sequence(a[
 
 
 def _g_two(S, W):
-    return ok({'subsequence': SEQ(W, S, 0.2), 'sequence': SEQ(W, S, 0.2), 'order': V(S.coin(0.6))})
+    sub = H(W, S, 'subpep_ann') if S.coin(0.4) else None
+    return ok({'subsequence': sub or SEQ(W, S, 0.2), 'sequence': SEQ(W, S, 0.2), 'order': V(S.coin(0.6))})
 
 
 op('is_subsequence', _g_two, lambda pt, a: pt.is_subsequence(a['subsequence'], a['sequence'], a['order']))
 op('find_subsequence_indices',
-   lambda S, W: ok({'sequence': SEQ(W, S), 'subsequence': H(W, S, 'subpep') or SEQ(W, S),
+   lambda S, W: ok({'sequence': SEQ(W, S), 'subsequence': (H(W, S, 'subpep_ann') if S.coin(0.5) else None) or
+                    H(W, S, 'subpep') or SEQ(W, S),
                     'ignore_mods': V(S.coin(0.3))}),
    lambda pt, a: pt.find_subsequence_indices(a['sequence'], a['subsequence'], ignore_mods=a['ignore_mods']),
    weight=2)
